@@ -311,7 +311,10 @@ class FieldValueComponentKeyValueBase(FieldValueComponentBase):
         cls._parse_value(parser)
         parsed_value = parser['value']
         if cls.get_canonical_name():
-            parsed_value = cls(parsed_value)
+            try:
+                parsed_value = cls(parsed_value)
+            except TypeError as e:  # value that the converter of the component cannot interpret
+                six.raise_from(InvalidValue(parsed_value, cls, 'value'), e)
 
         return parsed_value, parser.parsed_length
 
@@ -763,7 +766,12 @@ class FieldValueMultiple(FieldValueBase):
         cls._parse_basic_params(attr_to_component_name_dict, attr_fields_dict_basic, components, params)
         cls._parse_extensions(attr_to_component_name_dict, extension, components, params)
 
-        return cls(**params), len(parsable)
+        try:
+            value = cls(**params)
+        except TypeError as e:  # mandatory component without default value is missing
+            six.raise_from(InvalidValue(six.ensure_text(bytes(parsable), 'ascii', 'replace'), cls), e)
+
+        return value, len(parsable)
 
     def compose(self):
         composer = ComposerText()
